@@ -23,7 +23,13 @@ class Helper final : public Counter<ObjectT, DefaultDeleter> {
   }
 
   std::size_t GetRef() noexcept final {
-    return this->Get();
+    if constexpr (std::is_same_v<Counter<ObjectT, DefaultDeleter>, AtomicCounter<ObjectT, DefaultDeleter>>) {
+      // The caller decides on this value whether it is the last owner (and may move the value out):
+      // that decision has to happen after the accesses of the owners that already released their reference
+      return this->Get(std::memory_order_acquire);
+    } else {
+      return this->Get();
+    }
   }
 };
 
